@@ -189,7 +189,7 @@ def render_statement(tree, spec, L):
             if len(info[1]) == 2:
                 s += L.opt() + '+/-' + L.opt() + info[1][1]
             s += L.need() + info[2][0] + L.tight() + ']' + L.opt()
-        s += (L.opt() + '+' + L.opt()).join(tree[2]) + L.opt() + '->' + L.opt() + (L.opt() + '+' + L.opt()).join(tree[3])
+        s += (L.opt() + '+' + L.opt()).join(tree[2]) + L.need() + '->' + L.opt() + (L.opt() + '+' + L.opt()).join(tree[3])
         return s
     if k == 'kernel-complex':
         s = tree[1] + L.opt() + '=' + L.opt() + render_pattern(tree[2], L)
